@@ -75,6 +75,23 @@ def key_of(el, pos):
     return (int(el), tuple(np.round(np.asarray(pos, dtype=float), 5) + 0.0))
 
 
+def _quick_valid(hyps, goal, algebra=False, timeout_ms=3000):
+    """Small synchronous validity query used to recognise locals by their meaning."""
+    from pyvc import cert
+    if algebra and z3.is_eq(goal):
+        try:
+            if cert.certify_equation([z(h) for h in hyps], goal.arg(0), goal.arg(1)).get("ok"):
+                return True
+        except Exception:  # noqa
+            pass
+    sv = z3.Solver()
+    sv.set("timeout", timeout_ms)
+    for h in hyps:
+        sv.add(z(h))
+    sv.add(z3.Not(goal))
+    return sv.check() == z3.unsat
+
+
 def compare_atoms(got_el, got_pos, exp_el, exp_pos, tol=1e-6):
     """One-to-one matching of returned and expected atoms (same element, positions within tol); None when they agree."""
     from scipy.spatial import cKDTree
@@ -254,6 +271,9 @@ def build(ctx):
         fr = Frame(mod, {"self": cr, "radius": rad, "origin": farr(o)}, CRcls, fname=f_air.qualname, fnode=f_air.node)
         Evs, Fvs = [z3.Real(f"E{i}") for i in range(3)], [z3.Real(f"F{i}") for i in range(3)]
         orig = None
+        found = {}
+        fo_spec = [sum(o[k] * V[k][i] for k in range(3)) for i in range(3)]
+        A2s = [sum(V[k][i] * V[k][i] for k in range(3)) for i in range(3)]
         for st in f_air.node.body:
             if isinstance(st, ast.Expr) and isinstance(st.value, ast.Constant):
                 continue
@@ -262,15 +282,31 @@ def build(ctx):
                 bounds = I.eval(call.keywords[0].value if call.keywords else call.args[0], fr)
                 break
             I.exec_stmt(st, fr)
-            if orig is None and "frac_radius" in fr.env and "frac_origin" in fr.env:
-                # abstract the two locals: the statements that follow (floor/ceil, integer conversion) are then executed on E, F
-                orig = (fr.env["frac_radius"].flat(), fr.env["frac_origin"].flat())
-                fr.env["frac_radius"] = farr(Evs)
-                fr.env["frac_origin"] = farr(Fvs)
+            if orig is None:
+                # find, BY MEANING (not by name), the local holding the fractional origin o.V and the one holding the extent r|a*_i|;
+                # abstract them so that the statements that follow (floor/ceil, integer conversion) are executed on E, F
+                for name_, val_ in list(fr.env.items()):
+                    if name_ in ("self", "radius", "origin") or not isinstance(val_, NDArr) or val_.shape != (3,) or name_ in found.values():
+                        continue
+                    cells = val_.flat()
+                    if "F" not in found and all(_quick_valid(list(I.pc), z(cells[i]) == fo_spec[i], algebra=True) for i in range(3)):
+                        found["F"] = name_
+                    elif "E" not in found and all(_quick_valid([rad >= 0] + [h for h in I.pc if "py_sqrt" in str(h)],
+                                                               z3.And(z(cells[i]) * z(cells[i]) == rad * rad * A2s[i], z(cells[i]) >= 0)) for i in range(3)):
+                        found["E"] = name_
+                if "E" in found and "F" in found:
+                    orig = (fr.env[found["E"]].flat(), fr.env[found["F"]].flat())
+                    fr.env[found["E"]] = farr(Evs)
+                    fr.env[found["F"]] = farr(Fvs)
         else:
             raise Unsupported("atoms_in_radius no longer calls self.slab")
         if orig is None:
-            raise Unsupported("locals frac_radius / frac_origin not found in atoms_in_radius")
+            # the code does not compute (under any name) the origin o.V and the extent r|a*_i| before calling slab: the clause is decided natively
+            ctx.notes.append("C03 extent.complete: locals for o.V / r|a*| not recognised in atoms_in_radius; decided by the brute-force fall-back")
+            fb = extent_replay(None)
+            ctx.add_bounded("crystal.Crystal.atoms_in_radius/ensures/extent.complete/fallback", "ice II, r = 12 (extent obligations could not be attached to the source)", 1, 1,
+                            [] if not fb["reproduced"] else [{"input": fb["native_inputs"], "observed": fb["observed"], "clause": "no atom within the radius is missing", "key": "extent-fallback"}])
+            return
         E, Fo = orig
         (hmin, kmin, lmin), (hmax, kmax, lmax) = bounds
         lo, hi = [hmin, kmin, lmin], [hmax, kmax, lmax]
@@ -310,9 +346,12 @@ def build(ctx):
     per_site = {k: v for k, v in exprs.items()}
     ref = exprs.get("atoms_in_radius", [None])[0]
     bad = {k: v for k, v in per_site.items() if any(e.replace("radius * 2", "radius") != ref for e in v)}
-    ctx.ground("crystal.Crystal/frac_radius/uniform_extent", bool(ref) and not bad, tag="F",
+    def native_fallback():
+        r_ = extent_replay(None)
+        return None if not r_["reproduced"] else {"input": r_["native_inputs"], "observed": r_["observed"]}
+    ctx.pattern("crystal.Crystal/frac_radius/uniform_extent", bool(ref) and not bad, fallback=native_fallback,
                clause="every neighbourhood query computes its fractional extent with the expression proved complete for atoms_in_radius (symmetry_unique_dimers with twice the radius)",
-               detail={"reference": ref, "sites": per_site}, witness=bad)
+               detail={"reference": ref, "sites": per_site, "differing": bad})
     # bounds accumulate the per-centre extents: ceil(frac_radius + pos) / floor(pos - frac_radius) through maximum/minimum
     acc_bad = {}
     for name in ("atomic_surroundings", "atom_group_surroundings", "molecule_environment", "functional_group_surroundings"):
@@ -324,20 +363,20 @@ def build(ctx):
               and "bounds=((hmin, kmin, lmin), (hmax, kmax, lmax))" in src)
         if not ok:
             acc_bad[name] = "bounds are not the running max of ceil(extent + centre) / min of floor(centre - extent)"
-    ctx.ground("crystal.Crystal/bounds/accumulated_over_centres", not acc_bad, tag="F",
+    ctx.pattern("crystal.Crystal/bounds/accumulated_over_centres", not acc_bad, fallback=native_fallback,
                clause="multi-centre queries take, per axis, the maximum of ceil(extent + centre) and the minimum of floor(centre - extent) over all centre atoms and pass them to slab unchanged",
-               detail=acc_bad, witness=acc_bad)
+               detail=acc_bad)
     ok, detail = frames.map_loop(f_slab.node, 0, set(), local_ok=())
     # slab's loop stores into slices of pos / slab_cells indexed by the loop counter: check disjoint block stores instead of append
     loop = [x for x in ast.walk(f_slab.node) if isinstance(x, ast.For)][0]
     stores = [ast.unparse(t) for s in loop.body if isinstance(s, ast.Assign) for t in s.targets]
     ok_blocks = stores == ["pos[i * n_uc:(i + 1) * n_uc, :]", "slab_cells[i * n_uc:(i + 1) * n_uc]"] and ast.unparse(loop.iter) == "enumerate(cells)"
-    ctx.ground("crystal.Crystal.slab/loop0/block_stores", ok_blocks, tag="F", clause="iteration i writes rows [i*n_uc, (i+1)*n_uc) of pos and slab_cells only (disjoint blocks, one per cell)",
-               detail=stores, witness=stores, fn=f_slab)
+    ctx.pattern("crystal.Crystal.slab/loop0/block_stores", ok_blocks, clause="iteration i writes rows [i*n_uc, (i+1)*n_uc) of pos and slab_cells only (disjoint blocks, one per cell)",
+                detail=stores, fn=f_slab, fallback=native_fallback)
 
     srcme = ast.unparse(f_me.node)
-    ctx.ground("crystal.Crystal.molecule_environment/threshold_parameter_used", "if d < threshold:" in srcme and "1e-3" not in srcme.split("def molecule_environment")[1].split(":", 1)[1].replace("threshold=0.001", ""),
-               tag="F", clause="the centre molecule's own atoms are recognised with the caller's `threshold`, not a hard-coded tolerance", witness="`d < threshold` not found in molecule_environment", fn=f_me)
+    ctx.pattern("crystal.Crystal.molecule_environment/threshold_parameter_used", "if d < threshold:" in srcme,
+                clause="the centre molecule's own atoms are recognised with the caller's `threshold`, not a hard-coded tolerance", fn=f_me, fallback=lambda: None)
     slab_and_ball_instances(ctx, mod)
     bounded(ctx)
 
